@@ -1,7 +1,7 @@
 \* generation (sweep export): one BEHS line per view list = the expectation for EVERY instrument
 CONSTANTS
   TypeSet <- Types2   PatSet <- PatsAll   UnitSelSet <- UnitSelAll   MSelSet <- MSelsAll   ShapeSet <- Shape1
-  INameSet <- INamesAll   IUnitSet <- IUnitsAll   MeterSet <- MetersAll   AttrSet <- Attrs1
+  INameSet <- INamesAll   IUnitSet <- IUnitsAll   MeterSet <- Meters3   AttrSet <- Attrs1
   MaxViews = 1  MaxInst = 0  Hist = FALSE
 INIT Init
 NEXT Next
